@@ -63,6 +63,7 @@ Qed.
 Lemma Sound_remove_cp n dp : Sound g0 (U_cp g0 n dp) (remove_cp_and_links n dp).
 Proof.
   unfold remove_cp_and_links.
+  apply Sound_bind'; [apply Inv_read | apply Sound_read | intros _].
   apply Sound_bind'; [apply Inv_need_node | apply Sound_read | intros _].
   apply Sound_bind_get. intros d. apply Sound_for_each_set. intros x Hx.
   split; [apply Inv_delete | apply Sound_delete]. apply (cp_del_list_sound d). exact Hx.
